@@ -31,7 +31,7 @@ ANCHORS = [
     "stereomolgraph.graphs.mg:MolGraph.from_atom_types_and_bond_order_matrix",
 ]
 REQUIRED_ANCHORS = ANCHORS
-REQUIRED = ["roundtrips", "single_atom", "connectivity_matrices", "contract_evaluations", "rigid_motions", "permutations", "threshold_pairs", "translation_magnitude:1e+06", "comment:fourcol", "comment:nonascii", "comment:none", "large_geometries", "foreign_cutoff_overrides"]
+REQUIRED = ["roundtrips", "single_atom", "connectivity_matrices", "contract_evaluations", "rigid_motions", "permutations", "threshold_pairs", "translation_magnitude:1e+06", "comment:fourcol", "comment:nonascii", "comment:none", "large_geometries", "foreign_cutoff_overrides", "session_requests", "session_cutoff_edits"]
 _contract = {"n": 0}
 
 
@@ -309,4 +309,80 @@ def _conn(ctx, case):
     if bad.any():
         i, j = map(int, np.argwhere(bad)[0])
         ctx.violate(f"C20/connectivity-not-invariant/rigid-motion+permutation/translation~{tmag:g}", f"pair ({i},{j}) bonded={m[i, j]} before and {back[i, j]} after rotation/translation/permutation (d={math.dist(c[i], c[j])!r})", case)
+    if n <= 40 and case.get("gseed", 0) % 4 == 1:
+        _session(ctx, case, list(els), c, loose, rng)
     ctx.sample({"kind": "conn", "shape": case["shape"], "elements": els, "bonds": int(m.sum()) // 2})
+
+
+def _session(ctx, case, els, c, loose, rng):
+    """ONE long-lived BondsFromDistance object used for a series of requests, as in a scan over substituents or a
+    trajectory: the caller's element list edited in place between calls, the cut-off table edited between calls, the same
+    geometry asked again in another atom order. Every answer must be the answer of a brand-new object given the same
+    table edits (a new object has no history)."""
+    from stereomolgraph.coords import BondsFromDistance
+    from stereomolgraph.periodic_table import PERIODIC_TABLE
+
+    n = len(els)
+    sf = BondsFromDistance()
+    edits = []
+
+    def fresh_answer(e, cc):
+        f = BondsFromDistance()
+        for key, val in edits:
+            f.connectivity_cutoff[key] = val
+        return np.asarray(f.array(cc.copy(), list(e)))
+
+    def ask(step, e_arg, cc, e_plain, ignore):
+        try:
+            got = np.asarray(sf.array(cc, e_arg))
+        except Exception as e:  # noqa: BLE001
+            ctx.violate(f"C20/connectivity-raises:{type(e).__name__}/session/{step}", f"array raised {e!r} in a series of requests to one object (step: {step})", case)
+            return None
+        want = fresh_answer(e_plain, cc)
+        ctx.count("session_requests")
+        bad = (got != want) & ~ignore
+        if bad.any():
+            i, j = map(int, np.argwhere(bad)[0])
+            ctx.violate(f"C20/connectivity-depends-on-history/{step}", f"one BondsFromDistance object used for a series of requests answers {got[i, j]} for pair ({i},{j}) (elements {e_plain[i]},{e_plain[j]}, d={math.dist(cc[i], cc[j])!r}) where a new object answers {want[i, j]} (step: {step})", case)
+            return None
+        return got
+
+    if ask("first", els, c, els, loose) is None:
+        return
+    if ask("same-again", els, c, els, loose) is None:
+        return
+    # the caller's list edited in place (no threshold filter needed: both objects apply the same rule to the same numbers)
+    none = np.zeros((n, n), dtype=bool)
+    for _ in range(2):
+        k = rng.randrange(n)
+        els[k] = rng.choice([1, 9, 17, 35, 53, 6, 16])
+        if ask("element-list-edited-in-place", els, c, list(els), none) is None:
+            return
+    arr = np.array(els)
+    if ask("element-array", arr, c, list(els), none) is None:
+        return
+    arr[rng.randrange(n)] = rng.choice([1, 9, 17, 35, 53])
+    if ask("element-array-edited-in-place", arr, c, [int(x) for x in arr], none) is None:
+        return
+    els = [int(x) for x in arr]
+    # the cut-off table edited between requests (both key orders), then the same geometry in two atom orders
+    i, j = rng.sample(range(n), 2)
+    val = float(sf.connectivity_cutoff[(PERIODIC_TABLE[els[i]], PERIODIC_TABLE[els[j]])]) * rng.choice([0.5, 1.7, 3.0])
+    for key in ((PERIODIC_TABLE[els[i]], PERIODIC_TABLE[els[j]]), (PERIODIC_TABLE[els[j]], PERIODIC_TABLE[els[i]])):
+        sf.connectivity_cutoff[key] = val  # a symmetric table: the same value under both key orders
+        edits.append((key, val))
+    ctx.count("session_cutoff_edits")
+    m1 = ask("cutoff-edited", els, c, els, none)
+    if m1 is None:
+        return
+    perm = list(range(n))
+    rng.shuffle(perm)
+    m2 = ask("cutoff-edited+reordered", [els[p] for p in perm], c[perm], [els[p] for p in perm], none)
+    if m2 is None:
+        return
+    back = np.zeros_like(m2)
+    for i2, a in enumerate(perm):
+        for j2, b in enumerate(perm):
+            back[a, b] = m2[i2, j2]
+    if (back != m1).any():
+        ctx.violate("C20/connectivity-not-invariant/permutation/session", "after a cut-off edit the same geometry gives different bonds in two atom orders", case)
